@@ -23,6 +23,11 @@ package rest
 //   resolver (Coq cases + monitor): db.DefaultConflictResolver on pairs of (deleted, revision id), both
 //       orientations.
 //
+//   deepening round (verif_c06_custom_test.go): custom (v3, per-pull resolvers: JavaScript local / remote / merge / null /
+//       mix, localWins, remoteWins -- Coq cases with PullP), custom-vv and chain-vv (v4, any resolver, three peers --
+//       Coq cases CG on the model VVG.v), redeliver (re-delivery to the write path, checkpoint reset -- monitors);
+//       the vv stream is evaluated on the faithful transfer VVF.v (revision-tree clash scenarios revclash-*).
+//
 // Monitors (boolean reflections of the property, evaluated on what the implementation did):
 //   peers_converged         after the final pull;push every document has the same current revision id
 //                           (current version under vv), body and tombstone flag on both admin APIs
@@ -30,6 +35,8 @@ package rest
 //   resolver_symmetric      both orientations of DefaultConflictResolver keep the same revision
 //   resolver_policy         DefaultConflictResolver keeps the revision that is highest by (deleted, generation, digest)
 //   admin_api_consistent    the admin REST view of a document equals the stored document
+//   live_pull_keeps_document  a one-shot pull between two LIVE copies leaves a live document on the pulling side
+//   (and, in verif_c06_custom_test.go: chain_converged, chain_merge_not_reconflicted, redelivery_noop, checkpoint_reset_noop)
 
 import (
 	"encoding/json"
